@@ -148,4 +148,4 @@ Example C06_autocomplete_bites :
 Proof. vm_compute. split; reflexivity. Qed.
 
 Example C06_columns_bites : row_cells (repeat x61 65536) [] = None /\ row_cells (repeat x61 3) [] = Some (repeat x61 3).
-Proof. vm_compute. split; reflexivity. Qed.
+Proof. split; [apply columns_cap_rejects; vm_compute; reflexivity | vm_compute; reflexivity]. Qed.
